@@ -18,6 +18,8 @@ class Contract:
         self.pure = d.get("pure", False)
         self.returns = d.get("returns", "any")
         self.raises_only = d.get("raises_only", None)     # None = unspecified, () = raises nothing
+        # name of the obligation "raises nothing else" (ends with raises_only; property tags may be prefixed)
+        self.raises_only_name = d.get("raises_only_name", "raises_only")
         self.cover = d.get("cover", ())
         self.modifies = d.get("modifies", None)
         self.samples = _unwrap(d.get("samples", None))
@@ -31,7 +33,7 @@ class Contract:
                         if (n == "ensures" or n.startswith("ensures_")) and callable(_unwrap(f))]
         self.raises = []      # (clause name, exception class name, fn)
         for n, f in d.items():
-            if n.startswith("raises_") and n != "raises_only" and callable(_unwrap(f)):
+            if n.startswith("raises_") and not n.startswith("raises_only") and callable(_unwrap(f)):
                 exc = n[len("raises_"):].split("__")[0]
                 self.raises.append((n, exc, _unwrap(f)))
         self.loops = {}
